@@ -116,10 +116,13 @@ CLASSES.update({
     'Coder': dict(bases=[], module='pybufrkit.coder', fields={}),
     # the bit reader / writer as the generic walker sees it: whatever the concrete class, its stream is the modelled bit stream
     'BitOperator': dict(bases=[], fields={'bit_stream': Ref('BitStream')}),
+    'SectionConfigurer': dict(bases=[], module='pybufrkit.bufr', fields={}),
     'Decoder': dict(bases=['Coder'], module='pybufrkit.decoder',
-                    fields={'compiled_template_manager': Ref('CompiledTemplateManager'), 'tables_root_dir': STR}),
+                    fields={'compiled_template_manager': Ref('CompiledTemplateManager'), 'tables_root_dir': STR,
+                            'section_configurer': Ref('SectionConfigurer')}, nonnull=['section_configurer']),
     'Encoder': dict(bases=['Coder'], module='pybufrkit.encoder',
-                    fields={'ignore_declared_length': BOOL, 'compiled_template_manager': Ref('CompiledTemplateManager'), 'tables_root_dir': STR}),
+                    fields={'ignore_declared_length': BOOL, 'compiled_template_manager': Ref('CompiledTemplateManager'), 'tables_root_dir': STR,
+                            'section_configurer': Ref('SectionConfigurer')}, nonnull=['section_configurer']),
 })
 
 
@@ -283,7 +286,21 @@ def sf_pindex(eng, ctx, st, args):
     return SV(INT, _secidx(eng.list_arr(st, lst), eng.list_len(st, lst), st.hget(E.fkey('name', STR)), name.z))
 
 
-BI.EXTRA_SPEC_FORMS.update({'poff': sf_poff, 'phas': sf_phas, 'pindex': sf_pindex})
+def sf_has_transformer(eng, ctx, st, args):
+    """has_transformer(t, "name"): the tuple of configuration transformers (bound methods, a Python-level value that is concrete on every
+    path) contains the method of that name"""
+    tup, name = args
+    want = pystr(z3.simplify(name.z))
+    items = tup.z if isinstance(tup.z, tuple) else ()
+    found = False
+    for it in items:
+        z = getattr(it, 'z', None)
+        if isinstance(z, tuple) and len(z) == 3 and z[0] == 'bound' and z[2] == want:
+            found = True
+    return SV(BOOL, B(found))
+
+
+BI.EXTRA_SPEC_FORMS.update({'poff': sf_poff, 'phas': sf_phas, 'pindex': sf_pindex, 'has_transformer': sf_has_transformer})
 
 CLASSES['BufrSection']['hooks'] = {'iter': section_iter, 'len': section_len, 'getattr': section_getattr, 'contains': section_contains}
 
@@ -301,6 +318,7 @@ def message_setattr_dyn(eng, ctx, st, msg, name, val):
 CLASSES['BufrMessage']['hooks'] = {'setattr_dyn': message_setattr_dyn}
 # ghost: how many times the template data of this message has been entered (Decoder / Encoder.process_template_data)
 CLASSES['BufrMessage']['ghosts'] = {'td_entered': z3.IntSort()}
+CLASSES['BufrMessage']['ghost_init'] = {'td_entered': 0}      # a counter of events since the object was created
 
 
 # ---------------------------------------------------------------------------------------------
